@@ -13,25 +13,35 @@ import (
 // ---- generator of hub histories (quiescent semantics) ----------------------------
 
 type hdGenOpts struct {
-	internal bool // internal clients and virtual sessions
-	media    bool
-	api      bool
+	internal       bool // internal clients and virtual sessions
+	media          bool
+	api            bool
 	multiBackendRS bool // allow the same Nextcloud session id on different backends (known finding region of C03)
-	selfKick bool     // allow a session to re-use its own Nextcloud session id in another room
+	prehello       bool // requests on connections that have not said hello
+	twoTenants     bool
+	rooms          bool
+	messages       bool
+	resume         bool
+	limits         bool
+	endings        bool
+	perms          bool
+	gatedAlways    bool
+	virtual        bool
 }
 
 type hdGen struct {
-	r     *vrng
-	opts  hdGenOpts
-	conns []int        // open connection numbers (as far as the generator knows)
-	auth  map[int]int  // conn -> backend (authenticated, as far as the generator knows)
-	intern map[int]bool
-	next  int
-	rsOf  map[int]int // conn -> nc session id in use
+	r         *vrng
+	opts      hdGenOpts
+	conns     []int       // open connection numbers (as far as the generator knows)
+	auth      map[int]int // conn -> backend (authenticated, as far as the generator knows)
+	intern    map[int]bool
+	next      int
+	rsOf      map[int]int // conn -> nc session id in use
 	rsBackend map[int]int
-	gated bool
-	mcuTok int
-	blocked map[int]bool
+	gated     bool
+	blocked   map[int]bool
+	tag       int
+	dropped   []int // connections whose session may still be resumable
 }
 
 func (g *hdGen) pickConn() int {
@@ -59,6 +69,9 @@ func (g *hdGen) pickFreeConn() (int, bool) {
 func (g *hdGen) idref(priv bool) *hdIdRef {
 	x := g.r.intn(100)
 	c := g.pickConn()
+	if priv && len(g.dropped) > 0 && g.r.chance(60) {
+		c = pick(g.r, g.dropped)
+	}
 	switch {
 	case x < 70:
 		if priv {
@@ -105,223 +118,216 @@ func (g *hdGen) freshRS(c int, backend int) int {
 	return 0
 }
 
-func (g *hdGen) op() hdOp {
+func (g *hdGen) nextTag() int { g.tag++; return g.tag }
+
+func (g *hdGen) message(c int) hdOp {
+	k := "msg"
+	if g.r.chance(35) {
+		k = "ctl"
+	}
+	o := hdOp{K: k, C: c, To: g.recipient(), Tag: g.nextTag()}
+	if g.r.chance(15) {
+		o.FS = g.pickConn()
+	}
+	return o
+}
+
+func (g *hdGen) join(c, b int, authed bool) hdOp {
 	r := g.r
-	if len(g.conns) == 0 || (len(g.conns) < 5 && r.chance(12)) {
-		g.next++
-		g.conns = append(g.conns, g.next)
-		return hdOp{K: "connect", C: g.next, Addr: 1 + r.intn(3)}
+	room := 1 + r.intn(3)
+	if r.chance(12) {
+		room = 0
 	}
-	c, okc := g.pickFreeConn()
-	if !okc || (g.gated && len(g.blocked) > 0 && r.chance(15)) {
-		g.blocked = map[int]bool{}
-		return hdOp{K: "mcuflush"}
-	}
-	b, authed := g.auth[c]
-	if !authed && r.chance(75) {
-		// hello
-		x := r.intn(100)
-		switch {
-		case x < 60 && !(g.opts.internal && x < 25):
-			bk := r.intn(2)
-			if r.chance(6) {
-				bk = 2 + r.intn(2)
+	o := hdOp{K: "join", C: c, R: room}
+	if room != 0 {
+		if r.chance(80) {
+			o.RS = g.freshRS(c, b)
+			if o.RS != 0 && authed {
+				g.rsOf[c] = o.RS
+				g.rsBackend[o.RS] = b
 			}
-			rej := r.chance(8)
-			if bk < 2 && !rej {
-				g.auth[c] = bk
+		}
+		if r.chance(10) {
+			o.Err = pick(r, []string{"no_such_room", "not_invited", "refused"})
+		} else {
+			pp := 35
+			if g.opts.perms {
+				pp = 75
 			}
-			return hdOp{K: "hello", C: c, B: bk, U: r.intn(4), Reject: rej}
-		case x >= 60 && x < 85:
-			return hdOp{K: "hello", C: c, Ht: "resume", Id: g.idref(true)}
-		default:
-			if g.opts.internal {
-				bk := r.intn(2)
-				tok := 0
-				if r.chance(15) {
-					tok = 1 + r.intn(3)
+			if r.chance(pp) {
+				o.HasP = true
+				n := r.intn(5)
+				for i := 0; i < n; i++ {
+					o.Perm = append(o.Perm, r.intn(len(hdPermNames)))
 				}
-				if r.chance(5) {
-					bk = 2
-				}
-				var feat []string
-				if r.chance(40) {
-					feat = append(feat, ClientFeatureInternalInCall)
-				}
-				if r.chance(20) {
-					feat = append(feat, ClientFeatureStartDialout)
-				}
-				if tok == 0 && bk < 2 {
-					g.auth[c] = bk
-					g.intern[c] = true
-				}
-				return hdOp{K: "hello", C: c, Ht: "internal", B: bk, Tok: tok, Feat: feat}
 			}
-			return hdOp{K: "hello", C: c, Ht: "resume", Id: g.idref(true)}
+			if r.chance(15) {
+				o.SU = 1 + r.intn(3)
+			}
 		}
 	}
-	if g.opts.media && r.chance(30) {
-		switch r.intn(10) {
-		case 0, 1, 2, 3:
-			if g.gated {
-				g.blocked[c] = true
-			}
-			return hdOp{K: "media", C: c, Mk: "offer", Stream: pick(r, []string{"video", "video", "screen", "audio"}), Media: 1 + r.intn(3),
-				To: &hdRecipient{T: "session", Id: &hdIdRef{T: "pub", C: c}}}
-		case 4, 5, 6:
-			return hdOp{K: "media", C: c, Mk: "requestoffer", Stream: pick(r, []string{"video", "screen"}),
-				To: &hdRecipient{T: "session", Id: &hdIdRef{T: "pub", C: g.pickConn()}}}
-		case 7:
-			return hdOp{K: "media", C: c, Mk: "candidate", Stream: pick(r, []string{"video", "screen"}),
-				To: &hdRecipient{T: "session", Id: &hdIdRef{T: "pub", C: g.pickConn()}}}
-		default:
-			if g.gated {
-				g.mcuTok++
-				return hdOp{K: "mcudone", Tok: 0, Res: pick(r, []string{"ok", "ok", "ok", "fail"})}
-			}
-			return hdOp{K: "api", B: b, SignAs: b, R: 1 + r.intn(3), Api: "incallall", InCall: pick(r, []int{0, 1, 7})}
-		}
+	return o
+}
+
+func (g *hdGen) apiOp(bk int) hdOp {
+	r := g.r
+	o := hdOp{K: "api", B: bk, SignAs: bk, R: 1 + r.intn(3)}
+	if r.chance(5) {
+		o.SignAs = 1 - bk
 	}
-	x := r.intn(100)
-	switch {
-	case x < 24:
-		room := 1 + r.intn(3)
-		if r.chance(12) {
-			room = 0
-		}
-		o := hdOp{K: "join", C: c, R: room}
-		if room != 0 {
-			if r.chance(80) {
-				o.RS = g.freshRS(c, b)
-				if o.RS != 0 && authed {
-					g.rsOf[c] = o.RS
-					g.rsBackend[o.RS] = b
+	users := func() []hdApiUser {
+		var l []hdApiUser
+		n := 1 + r.intn(3)
+		for i := 0; i < n; i++ {
+			u := hdApiUser{RS: 1 + r.intn(8), InCall: pick(r, []int{0, 1, 3, 7})}
+			if !g.opts.multiBackendRS {
+				if ob, used := g.rsBackend[u.RS]; used && ob != bk {
+					continue
 				}
 			}
-			if r.chance(10) {
-				o.Err = pick(r, []string{"no_such_room", "not_invited", "refused"})
-			} else {
-				if r.chance(35) {
-					o.HasP = true
-					n := r.intn(4)
-					for i := 0; i < n; i++ {
-						o.Perm = append(o.Perm, r.intn(len(hdPermNames)))
-					}
-				}
-				if r.chance(15) {
-					o.SU = 1 + r.intn(3)
+			if r.chance(50) || g.opts.perms {
+				u.HasP = true
+				m := r.intn(5)
+				for j := 0; j < m; j++ {
+					u.Perm = append(u.Perm, r.intn(len(hdPermNames)))
 				}
 			}
+			l = append(l, u)
 		}
-		return o
-	case x < 50:
-		k := "msg"
-		if r.chance(35) {
-			k = "ctl"
+		return l
+	}
+	x := r.intn(10)
+	if g.opts.perms && r.chance(50) {
+		x = 3
+	}
+	switch x {
+	case 0:
+		o.Api = "delete"
+	case 1:
+		o.Api = "disinvite"
+		o.Users = users()
+		if r.chance(50) {
+			o.Users = append(o.Users, hdApiUser{U: 1 + r.intn(3)})
 		}
-		o := hdOp{K: k, C: c, To: g.recipient(), Tag: 1 + r.intn(90)}
-		if r.chance(15) {
-			o.FS = g.pickConn()
-		}
-		return o
-	case x < 56:
-		delete(g.auth, c)
-		g.removeConn(c)
-		return hdOp{K: "bye", C: c}
-	case x < 64:
-		delete(g.auth, c)
-		g.removeConn(c)
-		return hdOp{K: "drop", C: c}
-	case x < 70:
-		return hdOp{K: "tick", O: pick(r, []int{1, 5, 15, 15, 40, 40})}
-	case x < 74:
-		return hdOp{K: "hello", C: c, Ht: "resume", Id: g.idref(true)}
-	case x < 78:
-		return hdOp{K: "transient", C: c, Tk: pick(r, []string{"set", "remove"}), Key: 1 + r.intn(2), Tag: r.intn(5)}
-	case x < 92:
-		if !g.opts.api {
-			return hdOp{K: "msg", C: c, To: g.recipient(), Tag: 1 + r.intn(90)}
-		}
-		bk := r.intn(2)
-		o := hdOp{K: "api", B: bk, SignAs: bk, R: 1 + r.intn(3)}
-		if r.chance(5) {
-			o.SignAs = 1 - bk
-		}
-		users := func() []hdApiUser {
-			var l []hdApiUser
-			n := 1 + r.intn(3)
-			for i := 0; i < n; i++ {
-				u := hdApiUser{RS: 1 + r.intn(8), InCall: pick(r, []int{0, 1, 3, 7})}
-				if !g.opts.multiBackendRS {
-					if ob, used := g.rsBackend[u.RS]; used && ob != bk {
-						continue
-					}
-				}
-				if r.chance(50) {
-					u.HasP = true
-					m := r.intn(5)
-					for j := 0; j < m; j++ {
-						u.Perm = append(u.Perm, r.intn(len(hdPermNames)))
-					}
-				}
-				l = append(l, u)
-			}
-			return l
-		}
-		switch r.intn(10) {
-		case 0:
-			o.Api = "delete"
-		case 1:
-			o.Api = "disinvite"
-			o.Users = users()
-			if r.chance(50) {
-				o.Users = append(o.Users, hdApiUser{U: 1 + r.intn(3)})
-			}
-		case 2:
-			o.Api = "update"
-			o.Tag = r.intn(3)
-		case 3, 4, 5:
-			o.Api = "participants"
-			o.Users = users()
-		case 6, 7:
-			o.Api = "incall"
-			o.Users = users()
-		case 8:
-			o.Api = "incallall"
-			o.InCall = pick(r, []int{0, 1, 7})
-		default:
-			o.Api = "message"
-			o.Tag = 1 + r.intn(50)
-		}
-		return o
+	case 2:
+		o.Api = "update"
+		o.Tag = r.intn(3)
+	case 3, 4, 5:
+		o.Api = "participants"
+		o.Users = users()
+	case 6, 7:
+		o.Api = "incall"
+		o.Users = users()
+	case 8:
+		o.Api = "incallall"
+		o.InCall = pick(r, []int{0, 1, 7})
 	default:
-		if g.opts.internal && g.intern[c] {
-			switch r.intn(8) {
-			case 0, 1, 2:
-				o := hdOp{K: "internal", C: c, Ik: "addsession", V: 1 + r.intn(3), R: 1 + r.intn(3), U: r.intn(4)}
-				if r.chance(40) {
-					o.HasF, o.Flags = true, r.intn(4)
-				}
-				if r.chance(40) {
-					o.HasIC, o.InCall = true, pick(r, []int{0, 1, 5})
-				}
-				return o
-			case 3, 4:
-				o := hdOp{K: "internal", C: c, Ik: "updatesession", V: 1 + r.intn(3), R: 1 + r.intn(3)}
-				if r.chance(60) {
-					o.HasF, o.Flags = true, r.intn(4)
-				}
-				if r.chance(60) {
-					o.HasIC, o.InCall = true, pick(r, []int{0, 1, 5})
-				}
-				return o
-			case 5, 6:
-				return hdOp{K: "internal", C: c, Ik: "removesession", V: 1 + r.intn(3), R: 1 + r.intn(3)}
-			default:
-				return hdOp{K: "internal", C: c, Ik: "incall", InCall: pick(r, []int{0, 1, 3})}
-			}
+		o.Api = "message"
+		o.Tag = g.nextTag()
+	}
+	return o
+}
+
+func (g *hdGen) mediaOp(c int) hdOp {
+	r := g.r
+	switch r.intn(10) {
+	case 0, 1, 2, 3:
+		if g.gated {
+			g.blocked[c] = true
 		}
-		return hdOp{K: "msg", C: c, To: g.recipient(), Tag: 1 + r.intn(90)}
+		return hdOp{K: "media", C: c, Mk: "offer", Stream: pick(r, []string{"video", "video", "screen", "audio"}), Media: 1 + r.intn(3),
+			To: &hdRecipient{T: "session", Id: &hdIdRef{T: "pub", C: c}}}
+	case 4, 5, 6:
+		return hdOp{K: "media", C: c, Mk: "requestoffer", Stream: pick(r, []string{"video", "screen"}),
+			To: &hdRecipient{T: "session", Id: &hdIdRef{T: "pub", C: g.pickConn()}}}
+	case 7:
+		return hdOp{K: "media", C: c, Mk: "candidate", Stream: pick(r, []string{"video", "screen"}),
+			To: &hdRecipient{T: "session", Id: &hdIdRef{T: "pub", C: g.pickConn()}}}
+	default:
+		if g.gated {
+			return hdOp{K: "mcudone", Tok: 0, Res: pick(r, []string{"ok", "ok", "ok", "fail"})}
+		}
+		b := g.auth[c]
+		return hdOp{K: "api", B: b, SignAs: b, R: 1 + r.intn(3), Api: "incallall", InCall: pick(r, []int{0, 1, 7})}
+	}
+}
+
+func (g *hdGen) internalOp(c int) hdOp {
+	r := g.r
+	switch r.intn(8) {
+	case 0, 1, 2:
+		o := hdOp{K: "internal", C: c, Ik: "addsession", V: 1 + r.intn(3), R: 1 + r.intn(3), U: r.intn(4)}
+		if r.chance(40) {
+			o.HasF, o.Flags = true, r.intn(4)
+		}
+		if r.chance(40) {
+			o.HasIC, o.InCall = true, pick(r, []int{0, 1, 5})
+		}
+		return o
+	case 3, 4:
+		o := hdOp{K: "internal", C: c, Ik: "updatesession", V: 1 + r.intn(3), R: 1 + r.intn(3)}
+		if r.chance(60) {
+			o.HasF, o.Flags = true, r.intn(4)
+		}
+		if r.chance(60) {
+			o.HasIC, o.InCall = true, pick(r, []int{0, 1, 5})
+		}
+		return o
+	case 5, 6:
+		return hdOp{K: "internal", C: c, Ik: "removesession", V: 1 + r.intn(3), R: 1 + r.intn(3)}
+	default:
+		return hdOp{K: "internal", C: c, Ik: "incall", InCall: pick(r, []int{0, 1, 3})}
+	}
+}
+
+func (g *hdGen) hello(c int) hdOp {
+	r := g.r
+	x := r.intn(100)
+	internalShare := 0
+	if g.opts.internal {
+		internalShare = 30
+	}
+	if g.opts.virtual {
+		internalShare = 55
+	}
+	resumeShare := 15
+	if g.opts.resume && len(g.dropped) > 0 {
+		resumeShare = 45
+	}
+	switch {
+	case x < internalShare:
+		bk := r.intn(2)
+		tok := 0
+		if r.chance(12) {
+			tok = 1 + r.intn(3)
+		}
+		if r.chance(5) {
+			bk = 2
+		}
+		var feat []string
+		if r.chance(40) {
+			feat = append(feat, ClientFeatureInternalInCall)
+		}
+		if r.chance(20) {
+			feat = append(feat, ClientFeatureStartDialout)
+		}
+		if tok == 0 && bk < 2 {
+			g.auth[c] = bk
+			g.intern[c] = true
+		}
+		return hdOp{K: "hello", C: c, Ht: "internal", B: bk, Tok: tok, Feat: feat}
+	case x < internalShare+resumeShare:
+		return hdOp{K: "hello", C: c, Ht: "resume", Id: g.idref(true)}
+	default:
+		bk := r.intn(2)
+		if r.chance(6) {
+			bk = 2 + r.intn(2)
+		}
+		rej := r.chance(8)
+		if bk < 2 && !rej {
+			g.auth[c] = bk
+		}
+		return hdOp{K: "hello", C: c, B: bk, U: r.intn(4), Reject: rej}
 	}
 }
 
@@ -334,15 +340,138 @@ func (g *hdGen) removeConn(c int) {
 	}
 }
 
+func (g *hdGen) op() hdOp {
+	r := g.r
+	maxConns := 5
+	if g.opts.limits {
+		maxConns = 7
+	}
+	if len(g.conns) == 0 || (len(g.conns) < maxConns && r.chance(10)) {
+		g.next++
+		g.conns = append(g.conns, g.next)
+		return hdOp{K: "connect", C: g.next, Addr: 1 + r.intn(3)}
+	}
+	c, okc := g.pickFreeConn()
+	if !okc || (g.gated && len(g.blocked) > 0 && r.chance(15)) {
+		g.blocked = map[int]bool{}
+		return hdOp{K: "mcuflush"}
+	}
+	b, authed := g.auth[c]
+	if !authed {
+		if g.opts.prehello && r.chance(45) {
+			switch r.intn(6) {
+			case 0:
+				return g.join(c, 0, false)
+			case 1:
+				return g.message(c)
+			case 2:
+				return g.internalOp(c)
+			case 3:
+				return g.mediaOp(c)
+			case 4:
+				return hdOp{K: "transient", C: c, Tk: "set", Key: 1, Tag: 1}
+			default:
+				return hdOp{K: "tick", O: 1}
+			}
+		}
+		if r.chance(80) {
+			return g.hello(c)
+		}
+	}
+	// weights of the op classes for an authenticated connection
+	w := map[string]int{"join": 22, "msg": 24, "bye": 5, "drop": 7, "tick": 6, "resume": 3, "transient": 4, "api": 12, "internal": 0, "media": 0, "kick": 3}
+	if !g.opts.api {
+		w["api"] = 0
+	}
+	if g.opts.internal && g.intern[c] {
+		w["internal"] = 25
+		if g.opts.virtual {
+			w["internal"] = 45
+		}
+	}
+	if g.opts.media {
+		w["media"] = 30
+	}
+	if g.opts.messages {
+		w["msg"] = 45
+	}
+	if g.opts.rooms {
+		w["join"] = 40
+		w["kick"] = 8
+	}
+	if g.opts.resume {
+		w["drop"] = 14
+	}
+	if g.opts.endings {
+		w["bye"], w["drop"], w["tick"], w["kick"] = 8, 9, 9, 8
+	}
+	if g.opts.perms {
+		w["api"] = 25
+	}
+	total := 0
+	order := []string{"join", "msg", "bye", "drop", "tick", "resume", "transient", "api", "internal", "media", "kick"}
+	for _, k := range order {
+		total += w[k]
+	}
+	x := r.intn(total)
+	var cls string
+	for _, k := range order {
+		if x < w[k] {
+			cls = k
+			break
+		}
+		x -= w[k]
+	}
+	switch cls {
+	case "join":
+		return g.join(c, b, authed)
+	case "kick":
+		// join with the Nextcloud session id another connection of the same backend is using
+		o := g.join(c, b, authed)
+		for oc, rs := range g.rsOf {
+			if oc != c && g.rsBackend[rs] == b && o.R != 0 {
+				o.RS = rs
+				g.rsOf[c] = rs
+				break
+			}
+		}
+		return o
+	case "msg":
+		return g.message(c)
+	case "bye":
+		delete(g.auth, c)
+		g.removeConn(c)
+		return hdOp{K: "bye", C: c}
+	case "drop":
+		delete(g.auth, c)
+		g.removeConn(c)
+		g.dropped = append(g.dropped, c)
+		return hdOp{K: "drop", C: c}
+	case "tick":
+		return hdOp{K: "tick", O: pick(r, []int{1, 5, 15, 15, 40, 40})}
+	case "resume":
+		return hdOp{K: "hello", C: c, Ht: "resume", Id: g.idref(true)}
+	case "transient":
+		return hdOp{K: "transient", C: c, Tk: pick(r, []string{"set", "remove"}), Key: 1 + r.intn(2), Tag: r.intn(5)}
+	case "api":
+		return g.apiOp(r.intn(2))
+	case "internal":
+		return g.internalOp(c)
+	case "media":
+		return g.mediaOp(c)
+	}
+	return g.message(c)
+}
+
 func hdGenCase(r *vrng, id int, opts hdGenOpts, n int) *hdCase {
 	g := &hdGen{r: r, opts: opts, blocked: map[int]bool{}, auth: map[int]int{}, intern: map[int]bool{}, rsOf: map[int]int{}, rsBackend: map[int]int{}}
 	c := &hdCase{Id: id, Mode: 1, Backends: []hdBackendCfg{{}, {}}}
-	if opts.media && r.chance(40) {
+	if (opts.media && r.chance(40)) || opts.gatedAlways {
 		c.Gated = true
 		g.gated = true
 	}
-	if r.chance(25) {
-		c.Backends[0].Limit = 1 + r.intn(2)
+	if r.chance(25) || opts.limits {
+		c.Backends[0].Limit = 1 + r.intn(3)
 	}
 	for i := 0; i < n; i++ {
 		c.Ops = append(c.Ops, g.op())
